@@ -55,6 +55,29 @@ def run(F, tier, res):
             return set()
         return bufs
 
+    def any_buffers(fn, r):
+        """`[&a, &b].iter().any(|v| v.len() > limit)`: false means every listed buffer is within the limit"""
+        if not r[1].endswith('::any') or len(r[4]['args']) < 2:
+            return set()
+        cl = [x[1][1] for x in F.trace(fn, r[4]['args'][1]) if x[0] == 'agg' and x[1][0] == 'closure']
+        if len(cl) != 1 or cl[0] not in F.fn_bodies or F.bodies[cl[0]]['mir']['locals'][0] != 'bool':
+            return set()
+        q = cl[0]
+        good = False
+        for blk in F.blocks(q):
+            for st in blk['s']:
+                if st[0] == 'assign' and st[1]['l'] == 0 and not st[1]['p'] and st[2][0] == 'use' and 'const' in st[2][1]:
+                    return set()
+                if st[0] == 'assign' and st[2][0] == 'binop' and st[2][1] in ('Gt', 'Ge'):
+                    l_, r_ = F.trace(q, st[2][2]), F.trace_env(q, st[2][3])
+                    if any(x[0] == 'param' and x[2] and x[2][-1] == 'line_buffer_size' for x in r_) and \
+                            any(x[0] == 'call' and x[1].endswith('::len') and any(y[0] == 'param' and y[1] >= 2 for a in x[4]['args'][:1] for y in F.trace(q, a)) for x in l_):
+                        good = True
+        rr0 = F.trace(q, {'copy': {'l': 0, 'p': []}})
+        if not good or any(x[0] == 'unop' for x in rr0) or any(x[0] == 'call' and not x[1].endswith(('::len', '::deref', '::as_ref')) for x in rr0):
+            return set()
+        return {x[2][-1] for x in F.trace(fn, r[4]['args'][0], deep=True) if x[0] in ('param', 'local') and x[2] and x[2][-1] in ('minus_lines', 'plus_lines')}
+
     def buffer_guards(fn):
         """{buffer: [(switch_bb, exceeds_target, notexceeds_target)]} for comparisons of a subhunk buffer's len() with line_buffer_size"""
         guards = {}
@@ -64,7 +87,7 @@ def run(F, tier, res):
             for r in roots:
                 if r[0] == 'call':
                     q = r[1] if r[1] in F.fn_bodies else (r[4].get('resolved') or '')
-                    pb_ = pred_buffers(q)
+                    pb_ = pred_buffers(q) or any_buffers(fn, r)
                     if pb_ and Ru.negations(F, fn, op) % 2 == 0:
                         tt, ft = Ru.bool_edges(arms, other)
                         for w in pb_:
